@@ -13,6 +13,16 @@ NOTE_R = ("Mode R = IEEE specials over exact reals (no rounding/overflow/signed 
           "with instance axioms. Trusted: z3, the shim's model of NumPy element semantics, the oracles in /verif/spec and the harness. ")
 
 CHECKS = {
+    "C15": dict(
+        text="Bounded symbolic verification: the C14 catalogue engines (plus negative-zero, infinite and NaN parameters) with every numeric "
+             "parameter symbolic are exported by the real repr() and PythonExporter (plain/encapsulated, formatted or not) under each "
+             "library alias ('fl', '', '*', custom; one after another in one process); the library's own import statement is executed "
+             "and the generated code is eval/exec-uted with symbolic numbers travelling as placeholder identifiers; the real code forks "
+             "on the default-dropping branches (is_close(height,1), enabled, description, resolution == default, type == Automatic). Per "
+             "path: repr and FLL export of the rebuilt engine equal the original's, no numeric field can differ (SMT), outputs on symbolic "
+             "inputs cannot differ, and every component's own repr rebuilds to the same repr.",
+        note=NOTE_R + "black is executed concretely; digit-level repr(float) is outside (placeholders). Engine family bounded (catalogue).",
+        ref="DESIGN.md §2 C15"),
     "C14": dict(
         text="Bounded symbolic verification: one engine per registered term class, every norm in every role, every defuzzifier with/without "
              "parameter, every activation method with parameters, flags, descriptions, infinite ranges, NaN defaults, `none` operators, "
